@@ -135,9 +135,15 @@ class Sym:
         self.is_int = z.sort().kind() == z3.Z3_INT_SORT
 
     # ---- helpers
-    def _bin(self, other, op, rev=False):
+    def _bin(self, other, op, rev=False, kind=None):
         if _isnan(other):
             return other
+        if isinstance(other, float) and math.isinf(other):
+            if kind == "add":
+                return other
+            if kind == "sub":
+                return other if rev else -other
+            raise Unsupported("symbolic value combined with infinity by %s" % kind)
         if isinstance(other, (list, tuple, dict, str, type(None))):
             return NotImplemented
         try:
@@ -155,16 +161,16 @@ class Sym:
         return Sym(z3.simplify(op(a, b)))
 
     def __add__(self, o):
-        return self._bin(o, lambda a, b: a + b)
+        return self._bin(o, lambda a, b: a + b, False, "add")
 
     def __radd__(self, o):
-        return self._bin(o, lambda a, b: a + b, True)
+        return self._bin(o, lambda a, b: a + b, True, "add")
 
     def __sub__(self, o):
-        return self._bin(o, lambda a, b: a - b)
+        return self._bin(o, lambda a, b: a - b, False, "sub")
 
     def __rsub__(self, o):
-        return self._bin(o, lambda a, b: a - b, True)
+        return self._bin(o, lambda a, b: a - b, True, "sub")
 
     def __mul__(self, o):
         return self._bin(o, lambda a, b: a * b)
@@ -546,7 +552,7 @@ class Context:
         self.events = []
         self.uf_seen = []
         self.lemma_hooks = []
-        self.axioms = []
+        self.axioms = [PI > z3.RealVal("3.14159"), PI < z3.RealVal("3.1416")]
         self.vars = []
 
     # ---- variables
@@ -655,6 +661,17 @@ class Context:
                     z3.Implies(z3.And(a >= 0, b > 0), term >= 0)]
         elif name in ("gamma", "betafn"):
             lem += [z3.Implies(z3.And(*[x > 0 for x in zargs]), term > 0)]
+        if name in ("exp", "log", "sqrt"):
+            # monotonicity w.r.t. earlier applications of the same function on this path
+            for (n2, za2, t2) in self.uf_seen[:-1]:
+                if n2 != name:
+                    continue
+                b = za2[0]
+                if name == "exp":
+                    lem += [z3.Implies(a < b, term < t2), z3.Implies(b < a, t2 < term)]
+                else:
+                    dom = z3.And(a > 0, b > 0) if name == "log" else z3.And(a >= 0, b >= 0)
+                    lem += [z3.Implies(z3.And(dom, a < b), term < t2), z3.Implies(z3.And(dom, b < a), t2 < term)]
         for h in self.lemma_hooks:
             lem += h(name, zargs, term, self) or []
         for l in lem:
